@@ -181,6 +181,20 @@ def probe(ctx, cal, m, cfg, ns, stride, rng, sb, light=False):
                 if gl != exp or gt != tuple(exp) or gd != {str(i): e for i, e in enumerate(exp)} or type(gl) is not list or type(gt) is not tuple or type(gd) is not dict:
                     ctx.fail('adjust_fpm', 'adjust of a list / tuple / dict of dates %s with %r = %s / %s / %s, member by member gives %s; cfg=%s' % (others, a, gl, gt, gd, exp, _brief(cfg)))
                     return False
+    # the first day of the range, when it is a holiday: a holiday like any other
+    if not light and m.t0 in m.hol:
+        mon['is_bday'] += 1
+        b_, h_ = cal.is_bday(m.t0), cal.is_holiday(m.t0)
+        if b_ or not h_:
+            ctx.fail('is_bday', 'the first day of the range %s is a registered holiday: is_bday=%s is_holiday=%s; cfg=%s' % (m.t0, b_, h_, _brief(cfg)))
+            return False
+        mon['adjust_fpm'] += 1
+        sb.reset()
+        got_ = cal.adjust(m.t0, 'f')
+        if got_ != m.adjust(m.t0, 'f'):
+            ctx.fail('adjust_fpm', "adjust(%s, 'f') from the first day of the range (a holiday) = %s, model %s; cfg=%s" % (m.t0, got_, m.adjust(m.t0, 'f'), _brief(cfg)))
+            return False
+        ctx.cls('first_day_of_range_is_a_holiday')
     # drange '1b'
     for _ in range(3 if light else 25):
         a, b = sorted(rng.sample(days, 2)) if len(days) >= 2 else (days[0], days[0])
@@ -194,6 +208,14 @@ def probe(ctx, cal, m, cfg, ns, stride, rng, sb, light=False):
         if st != 'ok' or list(got) != exp:
             ctx.fail('drange_1b', "cal.drange(%s, %s, '1b') = %s..., model %s...; cfg=%s" % (a, b, got[:6] if st == 'ok' else got, exp[:6], _brief(cfg)))
             return False
+        if isinstance(got, list) and _ % 5 == 0:
+            # the list belongs to the caller: reversed and appended to, it must not show in what the same question gets next time
+            got.reverse(); got.append('edited-by-the-caller')
+            mon['drange_1b'] += 1
+            st, again = ctx.call(cal.drange, a, b, '1b')
+            if st != 'ok' or list(again) != exp:
+                ctx.fail('drange_1b', "cal.drange(%s, %s, '1b') asked again after the caller edited the first answer = %s..., model %s...; cfg=%s" % (a, b, again[:6] if st == 'ok' else again, exp[:6], _brief(cfg)))
+                return False
     # the start given as a bump: 'the business days since N business days before t1' (documented spelling of Calendar.drange)
     for _ in range(0 if light else 6):
         b_ = rng.choice(days)
@@ -388,6 +410,8 @@ def gen_cfg(rng):
         for i in range(ln):
             hol.add(start + DAY * i)
         crosses = True
+    if rng.random() < 0.25:
+        hol.add(t0)          # the first day of the calendar's range is itself a holiday (1 January)
     if rng.random() < 0.15:
         # a closure of more than a month (a market shut for weeks on end): one run of consecutive non-business days
         start = t0 + DAY * rng.randrange(200, 450)
